@@ -379,6 +379,8 @@ class Recorder(object):
       pass
     if not hasattr(engine.Engine, '_recompute_one_cell'):
       raise core.TieBroken('instrumentation point Engine._recompute_one_cell is gone')
+    self.reft = {}           # summary table id -> per group-by column the table its source column refers to
+    self.guard_calls = self.guard_true = 0
     self.calls = []
     self.ends = []           # per round: the source cells at the end of the round
     self.evals = []          # (index of the round, source table id, helper col id, row id)
@@ -407,12 +409,24 @@ class Recorder(object):
       if rec.on and col.col_id.startswith('#summary#'):
         rec.evals.append((len(rec.calls) - 1, table.table_id, col.col_id, row_id))
       return rec.orig_cell(eng, table, col, row_id, *args, **kwargs)
+    if not hasattr(engine.Engine, 'is_triggered_by_table_action'):
+      raise core.TieBroken('Engine.is_triggered_by_table_action is gone')
+    self.orig_guard = engine.Engine.is_triggered_by_table_action
+
+    def is_triggered_by_table_action(eng, table_id):
+      ret = rec.orig_guard(eng, table_id)
+      rec.guard_calls += 1
+      if ret:
+        rec.guard_true += 1
+      return ret
     engine.Engine._bring_all_up_to_date = _bring_all_up_to_date
     engine.Engine._recompute_one_cell = _recompute_one_cell
+    engine.Engine.is_triggered_by_table_action = is_triggered_by_table_action
 
   def uninstall(self):
     self.engine.Engine._bring_all_up_to_date = self.orig
     self.engine.Engine._recompute_one_cell = self.orig_cell
+    self.engine.Engine.is_triggered_by_table_action = self.orig_guard
 
   def begin(self):
     self.calls, self.evals, self.ends, self.on = [], [], [], True
@@ -440,6 +454,12 @@ class Recorder(object):
       simple = not any(k in 'CR' for k in kinds)
       if bool(t._summary_simple) != simple:
         raise core.TieBroken('%s._summary_simple=%r but group-by kinds are %r' % (tid, t._summary_simple, kinds))
+      reft = []
+      for c in gcols:
+        sc = src.all_columns.get(c)
+        tt = getattr(sc, '_target_table', None) if isinstance(sc, self.column.BaseReferenceColumn) else None
+        reft.append(tt.table_id if tt is not None else None)
+      self.reft[tid] = reft
       out[tid] = (src.table_id, gcols, kinds)
     return out
 
@@ -480,7 +500,7 @@ class Recorder(object):
       t = eng.tables[sid]
       snap[sid] = {'src': src_id, 'gcols': gcols, 'kinds': kinds,
                    'rows': [(rid, self.key_of_row(t, gcols, rid)) for rid in sorted(t.row_ids)],
-                   'prev': self.helper_entries(eng, sid, src_id)}
+                   'prev': self.helper_entries(eng, sid, src_id), 'reft': list(self.reft.get(sid, []))}
     return snap
 
   def endsnap(self, eng):
@@ -489,7 +509,7 @@ class Recorder(object):
     for sid, (src_id, gcols, kinds) in self.summary_tables(eng).items():
       s = eng.tables[src_id]
       conv = [eng.tables[sid].get_column(c) for c in gcols]
-      snap[sid] = {'src': src_id, 'gcols': gcols, 'kinds': kinds,
+      snap[sid] = {'src': src_id, 'gcols': gcols, 'kinds': kinds, 'ids': sorted(eng.tables[sid].row_ids),
                    'srows': [(rid, [preclassify(k, read_cell(s, c, rid), co, self.lookup)
                                     for k, c, co in zip(kinds, gcols, conv)]) for rid in sorted(s.row_ids)]}
     return snap
@@ -703,15 +723,51 @@ def cases_of_step(st, lookup_mod):
       raise core.TieBroken('snapshot of a round failed')
     if any(sid not in c for c in st['calls']) or any(sid not in c for c in st['ends']) or \
        len(st['ends']) != len(st['calls']):
-      out.append((sid, None, 'table-appeared-during-settle'))
+      out.append((sid, None, 'table-appeared-during-settle', None))
       continue
     try:
       d = dirty_sets(len(st['calls']), st['evals'], sid, post['src'])
-      out.append((sid, build_case([c[sid] for c in st['calls']], [c[sid] for c in st['ends']], post, lookup_mod, d),
-                  None))
+      case = build_case([c[sid] for c in st['calls']], [c[sid] for c in st['ends']], post, lookup_mod, d)
+      out.append((sid, case, None, chain_case(st, sid, case)))
     except SkipCase as ex:
-      out.append((sid, None, ex.args[0]))
+      out.append((sid, None, ex.args[0], None))
   return out
+
+
+def chain_case(st, sid, case):
+  """For a table whose group-by source columns refer to ONE other summary table S1: the same bundle as input of
+  SummaryChain.settle_chain_trace - the cells of later rounds are not taken from the record but recomputed from
+  the ids S1 lost between the rounds (cleanup_src / cleanup_keys).  None when not applicable."""
+  kinds, prev, rounds, expect = case
+  reft = st['calls'][0][sid].get('reft') or []
+  if any(c[sid].get('reft') != reft for c in st['calls']) or len(reft) != len(kinds):
+    return None
+  targets = set(t for t in reft if t is not None and t in st['calls'][0] and t != sid)
+  if len(targets) != 1:
+    return None
+  s1 = targets.pop()
+  if any(s1 not in c for c in st['calls']) or any(s1 not in c for c in st['ends']):
+    return None
+  rems = []
+  for r in range(len(rounds)):
+    if r + 1 < len(rounds):
+      nxt = set(rid for rid, _k in st['calls'][r + 1][s1]['rows'])
+      rems.append(sorted(set(st['ends'][r][s1]['ids']) - nxt))
+    else:
+      rems.append([])
+  refs = [t == s1 for t in reft]
+  return (kinds, refs, prev, rounds[0][1], rounds[0][2], [(rounds[r][0], rems[r]) for r in range(len(rounds))], expect)
+
+
+def chain_case_lit(kinds, refs, prev, src, summ, rounds, expect):
+  srows = core.coq_list(['(%s, %s)' % (core.zlit(rid), core.coq_list([cell_lit(c) for c in cells])) for rid, cells in src])
+  mrows = core.coq_list(['(%s, %s)' % (core.zlit(rid), core.coq_list([atom_lit(a) for a in key])) for rid, key in summ])
+  p = core.coq_list(['(%s, %s)' % (core.zlit(rid), core.zlist(ids)) for rid, ids in prev])
+  r = core.coq_list(['(%s, %s)' % (core.zlist(o), core.zlist(rem)) for o, rem in rounds])
+  x = core.coq_list(['(%s, %s, %s)' % (core.zlit(rid), core.coq_list([atom_lit(a) for a in key]), core.zlist(g))
+                     for rid, key, g in expect])
+  return '((%s, %s, %s, %s, %s, %s), %s)' % (core.coq_list([KIND_LIT[k] for k in kinds]),
+                                             core.coq_list([core.boollit(b) for b in refs]), p, srows, mrows, r, x)
 
 
 def build_case(starts, ends, post, lookup_mod, dirties):
@@ -990,13 +1046,22 @@ TRUSTED = ['Model/Summary.v is hand-written; tied on every run: for every succes
            'harness-side value mapping (classify/atom in harness/props/c12.py): Python values -> atoms modulo ==/hash, after '
            'the conversion Table.lookup_records applies (column.convert of the summary column, Record -> row id); monitored: '
            'set()/sorted() on the raw elements agree with the model\'s dedup/order on the atoms',
-           'instrumentation points Engine._bring_all_up_to_date, Engine._recompute_one_cell, Table._summary_source_table/'
+           'Model/SummaryChain.v (chained summary tables): cleanup_src / cleanup_keys are compared on every run with the '
+           'rewriting the engine performs between two rounds (check_chain_case: the later rounds of a recorded bundle are '
+           'recomputed from the ids the lower summary table lost)',
+           'instrumentation points Engine._bring_all_up_to_date, Engine._recompute_one_cell, '
+           'Engine.is_triggered_by_table_action, Table._summary_source_table/'
            '_summary_helper_col_id/_summary_simple, LookupMapColumn._mapping (harness-side wrappers)']
-ASSUMPTIONS = ['the theorems are about one summary table with fixed source cells; with chained summary tables the auto-removal '
-               'of a first-level row rewrites (reference clean-up) source and key cells of the second level between two '
-               'rounds, so the engine needs one more round per level: that part is covered by the tie (settle_rounds replays '
-               'the recorded rounds with the cells of each round; C12_recorded_rounds_are_the_trace when nothing is '
-               'rewritten) and by the oracle after every bundle, not by C12_settle_terminates',
+ASSUMPTIONS = ['C12_settle_terminates is about one summary table with fixed source cells; chained summary tables (reference '
+               'clean-up rewrites the next level between two rounds) are covered by C12_chain_terminates / C12_chain_exact '
+               '(at most k+1 rounds for k levels, full re-evaluation per round) for a linear chain whose group-by columns '
+               'refer to one lower summary table',
+               'C12_bundle_keeps_settled / C12_history_exact use one fact about the dependency tracking: the first round '
+               're-evaluates the helper cells of changed and new source records; its consequence clean_valid is evaluated on '
+               'the first round of every recorded bundle (clean_valid_fails in the evidence)',
+               'C12_undo_restores_table assumes the undo\'s doc actions put source cells and summary rows of the restored '
+               'state back (K1/C01) and that the restored state was settled; Engine.is_triggered_by_table_action is modelled '
+               '(helper_guarded) but is never true while a helper cell is evaluated in this tree (guard_true in the evidence)',
                'exactness (C12_settled_exact_partial) assumes that no helper formula raises (no_raise: every group-by cell '
                'readable, scalar ones hashable); the two refuted statements are the known finding C12-helper-raises',
                'the model assumes a row added by the helper formula stores the key that was looked up (fails for tuples in a '
@@ -1017,7 +1082,11 @@ LEVEL_TEXT = ('Kernel-checked: whenever the settle loop of apply_user_actions en
               'non-list values: C12_keys_characterised), no two rows share a key, every group is the ascending list of the '
               'records with that key and no group is empty, for all source data, group-by kinds and prior summary tables '
               '(incl. tables with duplicate keys); the loop ends after at most two rounds and the result is stable; simple '
-              'mode and list mode agree; the engine\'s incremental re-evaluation is carried over by C12_incremental_is_full. '
+              'mode and list mode agree; the engine\'s incremental re-evaluation is carried over by C12_incremental_is_full; '
+              '"settled" is an inductive invariant of histories of bundles and implies exactness (C12_history_exact); an '
+              'undo ends with exactly the table of the restored state (C12_undo_restores_table); k chained levels settle '
+              'within k+1 rounds and are exact at the end (C12_chain_terminates, C12_chain_exact; bound attained), also '
+              'when every level re-evaluates only dirty cells (C12_chain_incremental_*, hypothesis chain_cv monitored). '
               'The model is replayed against the engine on every run and a naive group-by oracle is evaluated after every '
               'bundle.')
 LEVEL_NOTE = ('Kernel strength: metadata handling of summary.py (update_summary_section, table naming), the lookup '
@@ -1078,13 +1147,16 @@ def collect(ctx):
             ctx.broken('correspondence:C12 instrumentation', str(ex))
             tie_ok[0] = False
             step_cases = []
-          for sid, case, skip in step_cases:
+          early = [x for x in st['evals'] if x[0] < 0]
+          if early:
+            ctx.bump('helper-cells-evaluated-before-the-settle-loop:' + ('undo' if st['undo'] else 'other'), len(early))
+          for sid, case, skip, chain in step_cases:
             if skip:
               ctx.bump('skipped:' + skip)
               continue
             touched = st['post'][sid]['src'] in st['touched'] or sid in st['touched']
-            cases.append(({'stream': label, 'seed': seed, 'table': sid, 'bundle': st['bundle'],
-                           'nhistory': len(st['history']), 'touched': touched}, case))
+            cases.append(({'stream': label, 'seed': seed, 'table': sid, 'bundle': st['bundle'], 'undo': st['undo'],
+                           'nhistory': len(st['history']), 'touched': touched, 'chain': chain}, case))
       except core.TieBroken as ex:
         ctx.broken('correspondence:C12 instrumentation', str(ex))
         tie_ok[0] = False
@@ -1093,6 +1165,9 @@ def collect(ctx):
   finally:
     if rec is not None:
       rec.uninstall()
+      # Engine.is_triggered_by_table_action (the guard of lookupOrAddDerived): how often it was asked and true
+      ctx.extra['guard_calls'] = rec.guard_calls
+      ctx.extra['guard_true'] = rec.guard_true
   ctx.log('engine: %d cases from %d runs, %d oracle issues' % (len(cases), len(runs), len(issues)))
   ctx._c12 = (cases, issues)
   return ctx._c12
@@ -1142,8 +1217,42 @@ def correspond(ctx):
     meta, case = cases[diff[0]]
     ctx.extra['full_recompute_differs_example'] = {'table': meta['table'], 'bundle': meta['bundle'],
                                                    'stream': meta['stream'], 'seed': meta['seed']}
-  ctx.log('correspondence: %d cases, %d differ; full re-evaluation differs on %d of %d'
-          % (len(lits), len(bad), len(diff), len(sub)))
+  # chained summary tables: the rewriting between rounds recomputed by SummaryChain.cleanup_src / cleanup_keys
+  chains = [(i, m['chain']) for i, (m, _c) in enumerate(cases) if m.get('chain') is not None]
+  for _i, ch in chains:
+    if any(rem for _o, rem in ch[5]):
+      ctx.bump('chain:lower-table-lost-rows-between-rounds')
+  cbad = ctx.run_cases('chain', ['Grist.Model.Summary', 'Grist.Model.SummaryChain'], 'check_chain_case',
+                       [chain_case_lit(*ch) for _i, ch in chains], shard=300)
+  for j in cbad[:5]:
+    meta = cases[chains[j][0]][0]
+    ctx.broken('correspondence:Model/SummaryChain.v cleanup_src/cleanup_keys differ from the engine',
+               'table %s after bundle %r (stream %s seed %s, after %d bundles); model input %r'
+               % (meta['table'], meta['bundle'], meta['stream'], meta['seed'], meta['nhistory'], chains[j][1][:6]))
+  ctx.extra['chain_cases'] = len(chains)
+  # monitor of the hypothesis of C12_incremental_is_full (clean_valid on the first round)
+  cv = ctx.run_cases('cv', ['Grist.Model.Summary'], 'check_clean_valid', [lits[i] for i in sub], shard=300)
+  cv = [sub[i] for i in cv]
+  ctx.extra['clean_valid_checked'] = len(sub)
+  ctx.extra['clean_valid_fails'] = len(cv)
+  ctx.extra['clean_valid_fails_in_undo_bundles'] = len([i for i in cv if cases[i][0].get('undo')])
+  multi = [i for i in sub if len(cases[i][1][2]) > 1]
+  cva = ctx.run_cases('cva', ['Grist.Model.Summary'], 'check_clean_valid_all', [lits[i] for i in multi], shard=300)
+  cva = [multi[i] for i in cva]
+  ctx.extra['clean_valid_all_rounds_checked'] = len(multi)
+  ctx.extra['clean_valid_fails_in_a_later_round'] = len([i for i in cva if i not in set(cv)])
+  if cva:
+    meta = cases[cva[0]][0]
+    ctx.extra['clean_valid_later_round_example'] = {'table': meta['table'], 'bundle': meta['bundle'],
+                                                    'stream': meta['stream'], 'seed': meta['seed']}
+  if cv:
+    meta = cases[cv[0]][0]
+    ctx.extra['clean_valid_fails_example'] = {'table': meta['table'], 'bundle': meta['bundle'],
+                                              'stream': meta['stream'], 'seed': meta['seed']}
+  ctx.log('correspondence: %d cases, %d differ; full re-evaluation differs on %d of %d; clean_valid fails on %d; '
+          '(later rounds: %d of %d); %d chain cases, %d differ; guard true %s of %s calls'
+          % (len(lits), len(bad), len(diff), len(sub), len(cv), len(cva), len(multi), len(chains), len(cbad),
+             ctx.extra.get('guard_true'), ctx.extra.get('guard_calls')))
 
 
 def known_kinds():
